@@ -115,7 +115,8 @@ CHECKS = {
         "unsupported-nesting error). Correspondence: the library is built six times ({none,alloc,std} x {half,no half}; separate cargo invocations/target dirs, "
         "default-features=false) and each build is run on one deterministic corpus (all accessors on wire trees, truncations, mutations, random bytes, typed decodes of EVERY kind of "
         "Decode impl that exists without alloc (Option, tuples, arrays, Range, Duration, &str, Bound, Tagged incl. wrong tags, NonZero, Int, Tag, bool, char, (), ByteArray, &ByteSlice, Result, "
-        "nested) on valid, truncated and mutated input, all Encoder methods) and compared line by line with the model at that configuration AND with the answers of the other "
+        "nested) on valid, truncated and mutated input incl. arrays two and more elements longer than [T; N] with foreign / truncated tails, all Encoder methods, and `encseq`: call scripts on ONE encoder "
+        "over a small &mut [u8] / Cursor<&mut [u8]> / Cursor<[u8; 12]>, carrying on after a call that did not fit, with the accepted bytes and the whole buffer in the transcript) and compared line by line with the model at that configuration AND with the answers of the other "
         "configurations on the same input (value / error class / position equal unless the difference is one of the two documented ones): a cross-configuration difference is "
         "reported with the input as replay.",
    design="5/C20", technique="Lean 4 proof (case analysis on the initial byte) + six-configuration differential correspondence against the configured model",
@@ -259,7 +260,8 @@ CHECKS = {
         "of the same sign, and for ALL finite binary32 inputs rounds to nearest with ties to even, overflowing to infinity exactly from 65520 (f16_encode_rne: full proof over exact "
         "magnitudes, no table). Correspondence: all half patterns, ~2^20 stratified f32 patterns (every exponent, every rounding tie shape) and f64 boundaries per-op against an "
         "orchestrator-side oracle (CPython struct codecs) and the model; blocks of 2^25 (quick) / all 2^32 (thorough) binary32 patterns through the real Encoder::f16 / Decoder::f64 / "
-        "Decoder::f32 against an independent value-based reference inside the harness, hash-compared with the model.",
+        "Decoder::f32 against an independent value-based reference inside the harness, hash-compared with the model; the Encode impls of f32 / f64 (what to_vec, containers and derived types "
+        "call; whatever width is written, the item must denote the identical value, a NaN its identical bits) and accessor sequences on ONE decoder (narrower accessors rejected, then the right one).",
    design="5/C12", technique="Lean 4 proof (finite tables by decide +kernel, exponent-class case analysis, grid-monotonicity argument for RNE, omega) + differential correspondence with independent oracles",
    note="the half crate's portable software path is what the pinned build uses on x86_64 (default-features = false) and what is modelled; its F16C/NEON paths are not exercised. "
         "NaN payload propagation is implementation-defined in IEEE 754: the oracle checks NaN-ness and sign, the exact payload is compared with the model only. "
@@ -278,7 +280,8 @@ CHECKS = {
         "counterexamples and the refutation of the unrestricted statement (roundtrip_statement_false). Correspondence: ~100 serde types incl. flatten / internally / adjacently tagged / "
         "untagged, judged by the property's own oracle in the orchestrator (independent encoder of the documented representation, reference well-formedness parser, de(ser v)==v, "
         "consumed==len, accepted re-framings, never-a-different-value on free re-framings) and compared with the model; bulk documents (130 / 300, thorough 127..1000, compound elements "
-        "per container: tuples, fixed arrays, options, structs, enum values) so that state a (de)serialiser keeps per document is exercised; strict prefixes and byte mutations against the model.",
+        "per container: tuples, fixed arrays, options, structs, enum values) so that state a (de)serialiser keeps per document is exercised; enum values directly followed by optional ones in one "
+        "array (a unit variant is a bare text: nothing closes it); strict prefixes and byte mutations against the model.",
    design="5/C17", technique="Lean 4 proof (mutual structural induction over typing derivations, loop lemmas, finite decide tables for Decoder::type_of, reuse of the C03/C04/C05/C06 lemmas) + differential correspondence with in-orchestrator oracle",
    note="PARTIAL only in what the code does not do: the full statement (roundtrip_statement) is false on the pinned code in exactly two classes, recorded as known findings K6 (char behind "
         "serde's Content buffer) and K7 (unit `()` / untagged unit variant behind it), each with a machine-checked counterexample; everything else is proved (roundtrip_partial). Untagged enums "
@@ -292,8 +295,8 @@ CHECKS = {
         "interop_decode_agree (on ARBITRARY bytes and all shared types incl. [T;N]: two ok answers carry the same value and position, so each side returns that value or an error), "
         "interop_decode_canonical (the common bytes decode to v on both sides, consuming exactly the item), array_reframing_example (the 'or an error' is real). Correspondence: 43 shared "
         "types x boundary values: minicbor::to_vec vs minicbor_serde::to_vec vs the orchestrator's own encoder; minicbor::decode vs minicbor_serde on canonical bytes, re-framings "
-        "(wider heads, indefinite containers, chunked strings), bulk documents (hundreds of tuples / fixed arrays / options in one document), strict prefixes and byte mutations, judged by the "
-        "property's oracle and compared with the model.",
+        "(wider heads, indefinite containers, chunked strings), bulk documents (hundreds of tuples / fixed arrays / options in one document), a None at a distance inside a Some "
+        "(Option<Vec<Option<_>>>, Option<(Option<_>, _)>, Option<BTreeMap<_, Option<_>>>), strict prefixes and byte mutations, judged by the property's oracle and compared with the model.",
    design="5/C18", technique="Lean 4 proof (mutual structural induction; compositional 'agree on success' relation over the decoder monad) + differential correspondence",
    note="serde's std impls for the shared types are modelled, not verified; Option directly inside Option is the properties' documented exclusion (Some(None) is null on both sides, they agree with each other)."),
  "C13": dict(
@@ -304,7 +307,8 @@ CHECKS = {
         "with accepted = the whole encoding on success and a prefix of it on failure; all sinks that succeed hold the same bytes, those Vec collects; after any raw sequence of "
         "write_all calls (continuing after failures) the position equals the number of bytes accepted and the per-call outcomes follow the fits-what-is-left rule; failure is a write "
         "error, never a panic; exact-fit corollary. Correspondence: Encoder call chains and concrete typed values at every capacity 0..=len+1 in every sink kind with real canary "
-        "bytes, and exhaustive short raw write_all sequences, judged by an orchestrator-side oracle (own encoder / own replay) and compared with the model line by line.",
+        "bytes, and exhaustive short raw write_all sequences, judged by an orchestrator-side oracle (own encoder / own replay) and compared with the model line by line; the growable-vector entry points "
+        "minicbor::to_vec / to_vec_with on a thread with a history (after failed calls, after a big one, nested inside another to_vec) against the one growable vector the model knows.",
    design="5/C13", technique="Lean 4 proof (layout invariant L++A++F++R, induction over the chunk list; fuel-bounded std write_all loop proved adequate) + differential correspondence with in-orchestrator oracle",
    note="Box<[u8]> and Vec own their allocation, so no adjacent canary exists for them (safe-Rust bounds checks apply). Typed values reach the sinks through Encoder call chains and a "
         "handful of concrete types; that every Encode impl is such a chain is C01/C07's subject. The std::io writer is the harness' Limited writer."),
@@ -319,7 +323,8 @@ CHECKS = {
         "reader_oversize_rejected: InvalidLen with the buffer untouched; valCodec_roundtrip / decVal_noPanic: the codec the harness runs satisfies the round-trip hypothesis. "
         "Correspondence: ~150k fread/fwrite scenarios on the real crate over scripted std::io streams (all compositions of streams <=12 bytes x Interrupted placements, every truncation "
         "point, bad / empty / over-long frames, max_len in {len-1,len,len+1}, hostile prefixes with the reader's largest allocation request measured by a counting allocator, random longer "
-        "ones incl. error / WouldBlock / Ok(0) events), judged by the orchestrator's own frame/CBOR oracle and compared with the model.",
+        "ones incl. error / WouldBlock / Ok(0) events, 31..300 frames through one reader / writer), judged by the orchestrator's own frame/CBOR oracle and compared with the model; every fourth scenario "
+        "once more with the reader / writer constructed by with_buffer from an empty, pre-allocated or dirty vector.",
    design="5/C14", technique="Lean 4 proof (induction over scripts; list take/drop algebra, omega) + differential correspondence with in-orchestrator oracle; oracle validated against 8 seeded mutants of minicbor-io",
    note="full strength for the model. The harness payload type is hio::V (u64 | bytes | failing encoder). Modelled, not verified: std's default read_exact/write_all loops, Vec growth "
         "(the allocation bound is measured on the real code: <= max(64, 2*max_len)). Release-profile arithmetic is modelled for `buffer.len() as u32 - 4` (debug builds would panic for "
@@ -335,8 +340,8 @@ CHECKS = {
         "async_reader_roundtrip, run_drop_irrelevant, transient_error_once/_resumes (state, buffer, position untouched), async_truncation(_never_value), async_resync, "
         "async_alloc/offset_le_four (every source behaviour: buffer <= max_len, offsets in range), async_oversize_rejected (InvalidLen; the reader then stays in ReadLen(_,4) and repeats it). "
         "Correspondence: ~225k aread scenarios on the real AsyncReader with hand-polled futures (no-op waker), futures dropped where the schedule says: all compositions of streams <=10 bytes "
-        "x <=2 Pendings anywhere x all keep/drop decisions; one transient error at every position; every truncation point; bad / over-long frames; random walks; judged by the property's "
-        "oracle on the implementation transcript and compared with the model.",
+        "x <=2 Pendings anywhere x all keep/drop decisions; one transient error at every position; every truncation point; bad / over-long frames; random walks; 31..300 frames in one scenario with a "
+        "drop after every / a third of / no poll; with_buffer constructors (empty, pre-allocated, dirty vector); judged by the property's oracle on the implementation transcript and compared with the model.",
    design="5/C15", technique="Lean 4 proof (state/stream representation invariant; induction over scripts and over schedules) + differential correspondence with in-orchestrator oracle; oracle validated against 6 seeded mutants (offset / prefix progress kept in the future, ...)",
    note="full strength for the model; 'eventually' is stated as the counting theorem async_reader_complete under the explicit fairness hypothesis (script not exhausted). Wakers and real executors "
         "are not modelled (the harness polls unconditionally). The scripted source honours the AsyncRead contract. No source hook needed."),
@@ -349,7 +354,8 @@ CHECKS = {
         "it plus a strict prefix of it; async_writer_clean_end; completed_write_reports_length; sync_idle_noop; write_zero_error (+ resumes); transient_error_keeps_offset; "
         "encode_failure_or_too_long_writes_nothing (from any state); offset_le_buffer; undisciplined_stale_state (machine-checked witness of the documented hazard outside the precondition). "
         "Correspondence: ~227k awrite scenarios on the real AsyncWriter: all compositions of <=10 frame bytes x <=2 Pendings x all keep / drop-then-sync decisions, one error event at every "
-        "position, rejected values between good ones, idle syncs, random disciplined walks (explicit and implicit drops) judged by the property's oracle; undisciplined walks against the model.",
+        "position, rejected values between good ones, idle syncs, random disciplined walks (explicit and implicit drops), 31..300 values through one writer, with_buffer constructors (empty, "
+        "pre-allocated, dirty vector) judged by the property's oracle; undisciplined walks against the model.",
    design="5/C16", technique="Lean 4 proof (sync-loop specification by induction over scripts; run invariant by induction over acts) + differential correspondence with in-orchestrator oracle; oracle validated against 7 seeded mutants",
    note="full strength for the model under Disciplined. Outside the precondition (write over a cancelled frame without sync) the code tears the stream by design (documented 'cancels the transfer'); "
         "additionally a failing write in that situation leaves a stale WriteFrom(o) into the rewritten buffer (undisciplined_stale_state) — reported, not constrained by the property. "
